@@ -264,6 +264,18 @@ def run(ck, facts):
         if ok2 and fn_sfx.endswith("dealloc"):
             ok2 = sym_is_arg(m.sym_op(fin[0][1]["args"][0]), 1)
         ck.expect(ok2, "R4", f["name"] + "/allocator-call", fn_sfx, "does not call %s on its pointer" % fn_sfx, C.loc(f))
+        # symmetry on every path: whatever diplomat_alloc hands out was obtained from the allocator, and diplomat_free hands everything back
+        if ok2:
+            cbb = fin[0][0]
+            rets = m.cfg.returns()
+            on_all = bool(rets) and all(cbb in pth for r in rets for pth in m.paths(0, r))
+            if fn_sfx.endswith("::alloc"):
+                d0 = m.defs.get(0, [])
+                only = len(d0) == 1 and d0[0][1] == "call" and (C.mir_callee(d0[0][2]) or "").endswith(fn_sfx)
+                ck.expect(on_all and only, "R4", f["name"] + "/every-path", "returns alloc(layout) on every path",
+                          "diplomat_alloc does not return the allocator's pointer on every path (e.g. a dangling pointer for size 0) while diplomat_free still deallocates whatever it is given", C.loc(f))
+            else:
+                ck.expect(on_all, "R4", f["name"] + "/every-path", "dealloc on every path", "diplomat_free skips dealloc on some path while diplomat_alloc always allocates", C.loc(f))
 
     # --- R6 type shape
     for name in ("slices::DiplomatSlice", "slices::DiplomatSliceMut", "slices::DiplomatOwnedSlice"):
